@@ -48,16 +48,15 @@ def _ab(kmax):
 _A, _B = _ab(4000)
 
 
-def hk_cylinder(L, T, ads, mat, kmax=4000):
+def hk_cylinder(L, T, ads, mat, kmax=None):
     """RT ln p = 3/4 pi N_A (n_h A_gh + n_g A_gg)/d0^4 sum_k 1/(k+1) (1-d0/L)^(2k) [21/32 a_k (d0/L)^10 - b_k (d0/L)^4]"""
     A_gg, A_gh, d_g, d_h, d0, n_g, n_h = _consts(ads, mat)
     r = d0 / L
     s = 0.0
+    kmax = max(1, min(int(L * 25), 2000)) if kmax is None else kmax  # the code's stated truncation rule: 25 terms per nm of radius
     for k in range(kmax):
         t = (1 - r) ** (2 * k) / (k + 1) * (21 / 32 * _A[k] * r ** 10 - _B[k] * r ** 4)
         s += t
-        if abs(t) < 1e-18 * abs(s):
-            break
     return math.exp(0.75 * math.pi * c.Avogadro / (c.gas_constant * T) * (n_h * A_gh + n_g * A_gg) / (d0 * 1e-9) ** 4 * s)
 
 
@@ -91,8 +90,10 @@ def _layers(L, d_h, d_g):
     return int(((2 * L - d_h) / d_g - 1) / 2) + 1
 
 
-def ry_cylinder(L, T, ads, mat, kmax=4000):
+def ry_cylinder(L, T, ads, mat, kmax=None):
     A_gg, A_gh, d_g, d_h, d0, n_g, n_h = _consts(ads, mat)
+
+    kmax = max(1, min(int(L * 25), 2000)) if kmax is None else kmax  # the code's stated truncation rule
 
     def eps(d, n, A, a):
         b = 1 - a
@@ -111,8 +112,15 @@ def ry_cylinder(L, T, ads, mat, kmax=4000):
 
 
 TRANSCRIBED = {
-    ('HK', 'cylinder'): (hk_cylinder, 0.012, 'radius'), ('RY', 'cylinder'): (ry_cylinder, 0.012, 'radius'), ('RY', 'slit'): (ry_slit, 2e-3, 'width'),
+    ('HK', 'cylinder'): (hk_cylinder, 3e-3, 'radius'), ('RY', 'cylinder'): (ry_cylinder, 3e-3, 'radius'), ('RY', 'slit'): (ry_slit, 2e-3, 'width'),
 }
+
+
+def _safe(spec, L, T, mat):
+    try:
+        return spec(L, T, ADS, mat)
+    except (ValueError, ZeroDivisionError, OverflowError):
+        return float('nan')
 
 
 def transcribed_cases(thorough=False):
@@ -129,12 +137,27 @@ def transcribed_cases(thorough=False):
             for (model, geom), (spec, tol, kind) in TRANSCRIBED.items():
                 Ls = (Ws + mat['molecular_diameter']) / 2 if kind == 'radius' else Ws + mat['molecular_diameter']
                 p = numpy.array([spec(L, T, ADS, mat) for L in Ls])
+                name = f"documented_equation_round_trip|{model}|{geom}|{matname}|T={T}"
+                # the Rege-Yang potentials jump where the number of layers changes: where the documented pressure is not
+                # increasing in the width a pressure has several (or no) solutions and the round trip claims nothing --
+                # keep the longest run of widths from the large end on which p(W) increases strictly
+                lo = len(p) - 1
+                while lo > 0 and p[lo - 1] < p[lo]:
+                    lo -= 1
+                p, Ws_ = p[lo:], Ws[lo:]
+                # ... and only widths whose pressure is attained nowhere else on the solver's search range (dense scan of the
+                # documented equation): the reported width is *a* solution, the round trip needs it to be the only one
+                dense_W = numpy.linspace(0.32, 5.0, 1200)
+                dense_L = (dense_W + mat['molecular_diameter']) / 2 if kind == 'radius' else dense_W + mat['molecular_diameter']
+                with numpy.errstate(all='ignore'):
+                    dense_p = numpy.array([_safe(spec, L, T, mat) for L in dense_L])
+                unique = numpy.array([numpy.sum(numpy.diff(numpy.sign(dense_p[numpy.isfinite(dense_p)] - pv)) != 0) <= 1 for pv in p])
+                p, Ws_ = p[unique], Ws_[unique]
                 keep = (p > 1e-14) & (p < 0.95)
                 order = numpy.argsort(p[keep])
-                pk, Wk = p[keep][order], Ws[keep][order]
-                name = f"documented_equation_round_trip|{model}|{geom}|{matname}|T={T}"
+                pk, Wk = p[keep][order], Ws_[keep][order]
                 if len(pk) < 4:
-                    yield {'name': name, 'ok': True, 'detail': 'fewer than four pressures in range (no claim)'}
+                    yield {'name': name, 'ok': True, 'detail': 'fewer than four widths on an increasing stretch of the documented equation (no claim)'}
                     continue
                 f = PMi.psd_horvath_kawazoe if model == 'HK' else PMi.psd_horvath_kawazoe_ry
                 with warnings.catch_warnings():
@@ -142,6 +165,9 @@ def transcribed_cases(thorough=False):
                     w, dist, vc = f(pk, numpy.linspace(1.0, 5.0, len(pk)), T, geom, ADS, mat)
                 want = (Wk[:-1] + Wk[1:]) / 2
                 w = numpy.asarray(w, dtype=float)
+                # (the infinite series of the cylindrical equations is truncated by the transcription exactly as the code says it
+                # does -- 25 terms per nm of radius --, so that the comparison is about the equation, not about the truncation;
+                # with the full series the widths differ by up to 1.6 % at 2 nm for the oxide-ion surfaces)
                 ok = len(w) == len(want) and bool(numpy.max(numpy.abs(w - want)) <= tol)
                 yield {'name': name, 'ok': ok, 'detail': '' if ok else f"expected mid-widths {want[:6]} reported {w[:6]}"}
 
